@@ -784,8 +784,14 @@ def run_component(ctx):
 
 
 def run(ctx):
-    run_component(ctx)
+    only = getattr(ctx, "only_parts", None)
+    if not only or any(not p.startswith("wire") for p in only):
+        run_component(ctx)
     # part (ii) NetSim wire monitor added by lead
+    if not only or any(p.startswith("wire") for p in only):
+        from checks import c08_wire
+
+        c08_wire.run_wire(ctx)
 
 
 # ====================================================================== replay
